@@ -2,6 +2,7 @@
 import random
 from typing import Any, Dict, Iterator, List
 
+import core
 from core import Case, Prop, SelfCheckFailure, InfraError
 from gen import hx, unhx, rbytes
 
@@ -52,8 +53,8 @@ def _need(cond, msg):
 
 
 def _pack_checked(obj) -> bytes:
-    raw = bytes(obj.pack())
-    _need(bytes(obj.pack()) == raw, "pack() twice gives different octets")
+    # packs twice, the caller extending / modifying the first returned buffer in between (as PDU assembly does)
+    raw = core.pack_stable(obj, type(obj).__name__ + ".pack()")
     _need(len(raw) == obj.packet_len, f"len(pack())={len(raw)} != packet_len={obj.packet_len}")
     return raw
 
@@ -73,6 +74,7 @@ def op_lv_pack(a):
     raw = _pack_checked(l)
     for sfx in (b"", SUFFIX):
         l2 = CfdpLv.unpack(raw + sfx)
+        core.ISOLATION.check("CfdpLv", l2, _lv_fields)
         _need(bytes(l2.value) == v and l2 == l and l2.packet_len == len(raw),
               "CfdpLv.unpack(pack(lv) + suffix) does not return the value / consume len+1 octets")
     return {**_lv_fields(l), "raw": hx(raw)}
@@ -81,8 +83,10 @@ def op_lv_pack(a):
 def op_lv_unpack(a):
     raw = unhx(a["raw"])
     l = CfdpLv.unpack(raw)
-    _need(bytes(l.pack()) == raw[: l.packet_len], "pack(unpack(b)) != b[:packet_len]")
-    return _lv_fields(l)
+    # items decoded by earlier calls must still show what they showed then
+    f = core.ISOLATION.check("CfdpLv", l, _lv_fields)
+    _need(_pack_checked(l) == raw[: l.packet_len], "pack(unpack(b)) != b[:packet_len]")
+    return f
 
 
 # ---------------------------------------------------------------- generic TLV
@@ -104,7 +108,7 @@ def op_tlv_pack(a):
     if a["type"] in TLV_TYPES:
         for sfx in (b"", SUFFIX):
             t2 = CfdpTlv.unpack(raw + sfx)
-            _need(_tlv_fields(t2) == _tlv_fields(t) and t2 == t and t == t2,
+            _need(core.ISOLATION.check("CfdpTlv", t2, _tlv_fields) == _tlv_fields(t) and t2 == t and t == t2,
                   "CfdpTlv.unpack(pack(tlv) + suffix) does not return the same type/value/length")
     return {**_tlv_fields(t), "raw": hx(raw)}
 
@@ -112,8 +116,9 @@ def op_tlv_pack(a):
 def op_tlv_unpack(a):
     raw = unhx(a["raw"])
     t = CfdpTlv.unpack(raw)
-    _need(bytes(t.pack()) == raw[: t.packet_len], "pack(unpack(b)) != b[:packet_len]")
-    return _tlv_fields(t)
+    f = core.ISOLATION.check("CfdpTlv", t, _tlv_fields)
+    _need(_pack_checked(t) == raw[: t.packet_len], "pack(unpack(b)) != b[:packet_len]")
+    return f
 
 
 # ---------------------------------------------------------------- plain wrappers
@@ -132,7 +137,7 @@ def op_tlv_w_pack(a):
     raw = unhx(out["raw"])
     for sfx in (b"", SUFFIX):
         o2 = cls.unpack(raw + sfx)
-        _need(_tlv_fields(o2) == _tlv_fields(o) and bytes(o2.value) == v, "unpack(pack(x) + suffix) differs from x")
+        _need(core.ISOLATION.check(cls.__name__, o2, _tlv_fields) == _tlv_fields(o) and bytes(o2.value) == v, "unpack(pack(x) + suffix) differs from x")
         if cls is not EntityIdTlv or len(v) in (1, 2, 4, 8):
             _need(o2 == o, "unpack(pack(x)) != x under ==")
     return out
@@ -141,14 +146,18 @@ def op_tlv_w_pack(a):
 def op_tlv_w_unpack(a):
     cls = WRAP[a["cls"]]
     raw = unhx(a["raw"])
-    out = _wrap_out(cls.unpack(raw), cls)
+    o = cls.unpack(raw)
+    core.ISOLATION.check(cls.__name__, o, _tlv_fields)
+    out = _wrap_out(o, cls)
     _need(unhx(out["raw"]) == raw[: out["packet_len"]], "pack(unpack(b)) != b[:packet_len]")
     return out
 
 
 def op_tlv_w_from_tlv(a):
     cls = WRAP[a["cls"]]
-    return _wrap_out(cls.from_tlv(_generic(a)), cls)
+    o = cls.from_tlv(_generic(a))
+    core.ISOLATION.check(cls.__name__, o, _tlv_fields)
+    return _wrap_out(o, cls)
 
 
 def op_tlv_msg_reserved(a):
@@ -156,6 +165,18 @@ def op_tlv_msg_reserved(a):
 
 
 # ---------------------------------------------------------------- fault handler override
+def _fh_fields(o):
+    return {"type": int(o.tlv_type), "cc": int(o.condition_code), "hc": int(o.handler_code), "value": hx(o.value),
+            "packet_len": int(o.packet_len)}
+
+
+def _fh_decoded(o):
+    """a decoded fault-handler override: objects decoded by earlier calls must still show what they showed then"""
+    _need(isinstance(o, FaultHandlerOverrideTlv), "result is not a FaultHandlerOverrideTlv")
+    core.ISOLATION.check("FaultHandlerOverrideTlv", o, _fh_fields)
+    return o
+
+
 def _fh_out(o):
     _need(isinstance(o, FaultHandlerOverrideTlv), "result is not a FaultHandlerOverrideTlv")
     raw = _pack_checked(o)
@@ -170,20 +191,20 @@ def op_tlv_fh_pack(a):
     raw = unhx(out["raw"])
     if a["cc"] < 16 and a["hc"] < 16:
         for sfx in (b"", SUFFIX):
-            o2 = FaultHandlerOverrideTlv.unpack(raw + sfx)
+            o2 = _fh_decoded(FaultHandlerOverrideTlv.unpack(raw + sfx))
             _need(_fh_out(o2) == out and o2 == o, "unpack(pack(x) + suffix) differs from x")
     return out
 
 
 def op_tlv_fh_unpack(a):
     raw = unhx(a["raw"])
-    out = _fh_out(FaultHandlerOverrideTlv.unpack(raw))
+    out = _fh_out(_fh_decoded(FaultHandlerOverrideTlv.unpack(raw)))
     _need(unhx(out["raw"]) == raw[: out["packet_len"]], "pack(unpack(b)) != b[:packet_len]")
     return out
 
 
 def op_tlv_fh_from_tlv(a):
-    return _fh_out(FaultHandlerOverrideTlv.from_tlv(_generic(a)))
+    return _fh_out(_fh_decoded(FaultHandlerOverrideTlv.from_tlv(_generic(a))))
 
 
 # ---------------------------------------------------------------- filestore request / response
@@ -194,6 +215,12 @@ def _fsreq(a) -> FileStoreRequestTlv:
 def _fsreq_fields(o):
     return {"type": int(o.tlv_type), "action": int(o.action_code), "first": hx(o.first_file_name.encode()),
             "second": hx(o.second_file_name.encode()), "packet_len": int(o.packet_len)}
+
+
+def _fsreq_decoded(o):
+    _need(isinstance(o, FileStoreRequestTlv), "result is not a FileStoreRequestTlv")
+    core.ISOLATION.check("FileStoreRequestTlv", o, _fsreq_fields)
+    return o
 
 
 def _fsreq_out(o):
@@ -215,7 +242,7 @@ def op_tlv_fsreq_pack(a):
     out["value"] = hx(o.value)
     if a["action"] in ACTIONS:
         for sfx in (b"", SUFFIX):
-            o2 = FileStoreRequestTlv.unpack(raw + sfx)
+            o2 = _fsreq_decoded(FileStoreRequestTlv.unpack(raw + sfx))
             f2, f1 = _fsreq_fields(o2), _fsreq_fields(o)
             if a["action"] not in SNP:
                 f1["second"] = ""
@@ -232,13 +259,13 @@ def _declared_len_check(o, raw):
 
 def op_tlv_fsreq_unpack(a):
     raw = unhx(a["raw"])
-    o = FileStoreRequestTlv.unpack(raw)
+    o = _fsreq_decoded(FileStoreRequestTlv.unpack(raw))
     _declared_len_check(o, raw)
     return _fsreq_out(o)
 
 
 def op_tlv_fsreq_from_tlv(a):
-    return _fsreq_out(FileStoreRequestTlv.from_tlv(_generic(a)))
+    return _fsreq_out(_fsreq_decoded(FileStoreRequestTlv.from_tlv(_generic(a))))
 
 
 def _fsresp(a) -> FileStoreResponseTlv:
@@ -250,6 +277,12 @@ def _fsresp_fields(o):
     return {"type": int(o.tlv_type), "action": int(o.action_code), "status": int(o.status_code),
             "first": hx(o.first_file_name.encode()), "second": hx(o.second_file_name.encode()),
             "msg": hx(o.filestore_msg.value), "packet_len": int(o.packet_len)}
+
+
+def _fsresp_decoded(o):
+    _need(isinstance(o, FileStoreResponseTlv), "result is not a FileStoreResponseTlv")
+    core.ISOLATION.check("FileStoreResponseTlv", o, _fsresp_fields)
+    return o
 
 
 def _fsresp_out(o):
@@ -271,7 +304,7 @@ def op_tlv_fsresp_pack(a):
     out["value"] = hx(o.value)
     if a["action"] in ACTIONS and a["status"] >= 0 and a["status"] >> 4 == a["action"]:
         for sfx in (b"", SUFFIX):
-            o2 = FileStoreResponseTlv.unpack(raw + sfx)
+            o2 = _fsresp_decoded(FileStoreResponseTlv.unpack(raw + sfx))
             f2, f1 = _fsresp_fields(o2), _fsresp_fields(o)
             if a["action"] not in SNP:
                 f1["second"] = ""
@@ -283,13 +316,13 @@ def op_tlv_fsresp_pack(a):
 
 def op_tlv_fsresp_unpack(a):
     raw = unhx(a["raw"])
-    o = FileStoreResponseTlv.unpack(raw)
+    o = _fsresp_decoded(FileStoreResponseTlv.unpack(raw))
     _declared_len_check(o, raw)
     return _fsresp_out(o)
 
 
 def op_tlv_fsresp_from_tlv(a):
-    return _fsresp_out(FileStoreResponseTlv.from_tlv(_generic(a)))
+    return _fsresp_out(_fsresp_decoded(FileStoreResponseTlv.from_tlv(_generic(a))))
 
 
 # ---------------------------------------------------------------- any TLV object, holder, equality
@@ -546,7 +579,50 @@ class C08(Prop):
         yield from self.gen_fs(rng, R)
         yield from self.gen_holder_eq(rng, R)
         yield from self.gen_status(rng)
+        yield from self.gen_sequences(rng, R)
         yield from self.gen_utf8(rng, R, thorough)
+
+    # -- sequences: state must not leak between objects or between calls ------------------------------
+    def gen_sequences(self, rng, R):
+        """back-to-back decodes of items that differ in type, length and every value octet (an object decoded
+        earlier must not follow a later decode); long values packed repeatedly (every pack op packs twice with the
+        first returned buffer modified in between)"""
+        own = {"entity_id": 6, "flow_label": 5, "msg_to_user": 2}
+        for _ in range(25 * R):
+            na, nb = rng.choice([64, 65, 100, 200, 254, 255]), rng.choice([0, 1, 2, 8, 63])
+            va = rbytes(rng, na)
+            vb = bytes(x ^ 0xFF for x in va[:nb])
+            ta = rng.choice(TLV_TYPES)
+            tb = rng.choice([t for t in TLV_TYPES if t != ta])
+            for t, v in ((ta, va), (tb, vb), (ta, va)):
+                yield Case({"op": "tlv_unpack", "raw": hx(bytes([t, len(v)]) + v + rbytes(rng, 2))}, "valid", tag="seq-decode")
+                yield Case({"op": "lv_unpack", "raw": hx(bytes([len(v)]) + v)}, "valid", tag="seq-decode")
+            for cls in WRAP:
+                for v in (va, vb, va):
+                    yield Case({"op": "tlv_w_unpack", "cls": cls, "raw": hx(bytes([own[cls], len(v)]) + v)}, "valid", tag="seq-decode")
+                    yield Case({"op": "tlv_w_from_tlv", "cls": cls, "type": own[cls], "value": hx(v)}, "valid", tag="seq-decode")
+                yield Case({"op": "tlv_w_pack", "cls": cls, "value": hx(va)}, "valid", tag="seq-pack-long")
+            yield Case({"op": "tlv_pack", "type": ta, "value": hx(va)}, "valid", tag="seq-pack-long")
+            yield Case({"op": "lv_pack", "value": hx(va)}, "valid", tag="seq-pack-long")
+            # filestore request / response: two-name action with long names, then a one-name action with short ones
+            f1, s1 = rand_utf8(rng, 60) + b"x" * 40, rand_utf8(rng, 60) + b"y" * 30
+            f2 = rand_utf8(rng, 5)
+            st1 = rng.choice([x for x in STATUS_NAT if x >> 4 in SNP])
+            st2 = rng.choice([x for x in STATUS_NAT if x >> 4 not in SNP])
+            m1, m2 = rbytes(rng, 20), rbytes(rng, 1)
+            for (st, f, sn, m) in ((st1, f1, s1, m1), (st2, f2, b"", m2), (st1, f1, s1, m1)):
+                v = fs_value(st >> 4, 0, f, sn)
+                yield Case({"op": "tlv_fsreq_unpack", "raw": hx(bytes([0, len(v)]) + v)}, "valid", tag="seq-decode")
+                yield Case({"op": "tlv_fsreq_from_tlv", "type": 0, "value": hx(v)}, "valid", tag="seq-decode")
+                v = fs_value(st >> 4, st & 15, f, sn, m)
+                yield Case({"op": "tlv_fsresp_unpack", "raw": hx(bytes([1, len(v)]) + v)}, "valid", tag="seq-decode")
+                yield Case({"op": "tlv_fsresp_from_tlv", "type": 1, "value": hx(v)}, "valid", tag="seq-decode")
+            op = {"action": st1 >> 4, "status": st1, "first": hx(f1), "second": hx(s1), "msg": hx(m1)}
+            yield Case({"op": "tlv_fsresp_pack", **op}, "valid", tag="seq-pack-long")
+            yield Case({"op": "tlv_fsreq_pack", "action": st1 >> 4, "first": hx(f1), "second": hx(s1)}, "valid", tag="seq-pack-long")
+            yield Case({"op": "tlv_any", "held": {"kind": "fs_response", **op}}, "valid", tag="seq-pack-long")
+            for b in (rng.randint(0, 255), rng.randint(0, 255)):
+                yield Case({"op": "tlv_fh_unpack", "raw": hx(bytes([4, 1, b]))}, "valid", tag="seq-decode")
 
     # -- LV -------------------------------------------------------------------------------------
     def gen_lv(self, rng, R):
